@@ -668,3 +668,33 @@ Example c01_att_ex :
   map m_seq (msgs (st (fst r))) = [1; 2; 3] /\
   match ca (fst r) with Some c => c_lastid c = 2 | None => False end.
 Proof. vm_compute. repeat split; reflexivity. Qed.
+
+(* ================================================================== *)
+(* "the number acknowledged is the number EVERY recipient and every later query shows": the
+   two wire encodings of a frame (JSON; protobuf for gRPC clients, server/pbconverter.go) -
+   model Sys/DescEncC01.v.  The protobuf fields are int32(...) of the Go int. *)
+From Tinode Require Import Sys.DescEncC01 Sys.DescEncC01Proofs.
+
+(* full statement: every frame shows the same number in both encodings - refuted by the faithful
+   model for a number that does not fit 32 bits (message 2^31 of one topic) ... *)
+Definition c01_number_same_in_every_encoding_statement : Prop :=
+  forall fr, shown_num_c01e EncPB fr = shown_num_c01e EncJSON fr.
+Theorem c01_number_same_in_every_encoding_refuted : ~ c01_number_same_in_every_encoding_statement.
+Proof. intros H. exact (shown_wit (H _)). Qed.
+(* ... and true for every {data}, {meta desc} and 202 acknowledgement whose number fits *)
+Theorem c01_number_same_in_every_encoding_partial : forall fr, fits_int32_c01e fr = true ->
+  shown_num_c01e EncPB fr = shown_num_c01e EncJSON fr.
+Proof. exact shown_same_when_fits. Qed.
+(* with c01_publish / c01_att_publish: the acknowledgement and every broadcast copy of an accepted
+   publish show lastID+1 in both encodings *)
+Theorem c01_accepted_number_in_every_encoding : forall e c skip seq u content x,
+  -2147483648 <= seq < 2147483648 ->
+  In x (fanout_data c skip (Data seq u content)) -> shown_num_c01e e (snd x) = Some seq.
+Proof.
+  intros e c skip seq u content x R H. rewrite (fanout_data_frames _ _ _ _ H).
+  destruct e; cbn [shown_num_c01e enc_num_c01e]; [reflexivity|]. rewrite int32_id by lia. reflexivity.
+Qed.
+
+Print Assumptions c01_number_same_in_every_encoding_refuted.
+Print Assumptions c01_number_same_in_every_encoding_partial.
+Print Assumptions c01_accepted_number_in_every_encoding.
